@@ -255,4 +255,18 @@ theorem select_empty_side {P : Params α} {d : Disc α} {live : Live} (h : DInv 
     have h2 : topExternal d.grid = some e.key.2 := by unfold topExternal; rw [he]
     exact ⟨h1.trans h2.symm, c, hc, hb, by rw [h1, hid]⟩
 
+/-- a stored motion sits in the cell of its coordinate and in no other -/
+theorem mem_cell_iff {P : Params α} {d : Disc α} {live : Live} (h : DInv P d live) {m : Nat} {x : Coord}
+    (hm : (m, x) ∈ live) {e : Coord × CellData α} (he : e ∈ d.cdata) : m ∈ e.2.motions ↔ e.1 = x := by
+  rw [(h.mot e he).1]
+  unfold motionsAt
+  constructor
+  · intro hmem
+    obtain ⟨p, hp, hpm⟩ := List.mem_map.1 hmem
+    obtain ⟨hpl, hpx⟩ := List.mem_filter.1 hp
+    have : p = (m, x) := eq_of_nodup_map (·.1) live h.lnd hpl hm hpm
+    rw [← (by simpa using hpx : p.2 = e.1), this]
+  · intro hex
+    exact List.mem_map.2 ⟨(m, x), List.mem_filter.2 ⟨hm, by simp [hex]⟩, rfl⟩
+
 end OmplModel.Disc
